@@ -752,17 +752,18 @@ class PaneConverter(Converter[PaneBaseT]):
     def into_data(self, val: t.Any) -> DataType:
         """Convert dataclass `val` into data interchange, using the correct 'out_format'"""
         assert isinstance(val, PaneBase)
+        # fields with `init=False` are not read from data (in either layout), so they aren't written either
         if self.opts.out_format == 'tuple':
             return tuple(
                 conv.into_data(getattr(val, field.name))
                 for (field, conv) in zip(self.fields, self.field_converters)
-                if not field.exclude
+                if field.init and not field.exclude
             )
         elif self.opts.out_format == 'struct':
             return {
                 field.out_name: conv.into_data(getattr(val, field.name))
                 for (field, conv) in zip(self.fields, self.field_converters)
-                if not field.exclude
+                if field.init and not field.exclude
             }
         raise ValueError(f"Unknown 'out_format' '{self.opts.out_format}'")
 
